@@ -202,7 +202,7 @@ pub fn run(ctx: &Ctx) -> i32 {
         Finish {
             rule: "even cases: extrude_border on random images 1x1..64x64 incl. 1xN / Nx1, every output pixel compared with the clamp formula; odd cases: PaletteMapper over palettes obtained by loading generated files (duplicates, ids >= 256, sparse starts), queries = every palette colour, +-1 near misses, channel swaps, alpha in {0,1,254}, random; allowed-answer sets exactly as the statement gives them; to_indexed_image dims and row-major order; distinct = case index (every case draws fresh random content)".into(),
             coverage_extra: json!({}),
-            assumptions: vec!["opaque colour present both below and at/above index 256: failure index or any matching low index are both accepted (the statement does not pin it)".into()],
+            assumptions: vec!["opaque colour present both below and at/above index 256: not 'all occurrences below 256', hence the statement's 'otherwise the failure index'".into()],
             exhaustive: false,
             min_evaluations: 1000,
         },
